@@ -47,6 +47,15 @@ from .graph_util import GraphML
 APOC_RETRY_COUNT = 10
 
 
+def cypher_escape(val: Any) -> str:
+    """
+    Escape a value so it can be placed inside a quoted (single or double) Cypher string literal
+    :param val:
+    :return:
+    """
+    return str(val).replace('\\', '\\\\').replace("'", "\\'").replace('"', '\\"')
+
+
 class Neo4jPropertyGraph(ABCPropertyGraph):
     """
     Neo4j-specific implementation of property graph abstraction
@@ -254,7 +263,7 @@ class Neo4jPropertyGraph(ABCPropertyGraph):
 
         all_props = ""
         for k, v in props.items():
-            all_props += f"{k}: '{v}', "
+            all_props += f"{k}: '{cypher_escape(v)}', "
         if len(all_props) > 2:
             all_props = all_props[:-2]
 
@@ -324,7 +333,7 @@ class Neo4jPropertyGraph(ABCPropertyGraph):
 
         all_props = ""
         for k, v in props.items():
-            all_props += f'{k}: "{v}", '
+            all_props += f'{k}: "{cypher_escape(v)}", '
         if len(all_props) > 2:
             all_props = all_props[:-2]
 
@@ -345,7 +354,8 @@ class Neo4jPropertyGraph(ABCPropertyGraph):
         if format != GraphFormat.GRAPHML:
             PropertyGraphQueryException(graph_id=self.graph_id, node_id=None,
                                         msg=f"Unsupported export graph format {format.name}")
-        inner_query = f'match(n:GraphNode {{GraphID: "{self.graph_id}"}}) optional match(n) -[r]- (m) return n, r, m'
+        inner_query = f'match(n:GraphNode {{GraphID: "{cypher_escape(self.graph_id)}"}}) ' \
+                      f'optional match(n) -[r]- (m) return n, r, m'
         # run inner query to check the graph has anything in it
         with self.driver.session() as session:
             val = session.run(inner_query)
@@ -353,7 +363,7 @@ class Neo4jPropertyGraph(ABCPropertyGraph):
                 raise PropertyGraphQueryException(graph_id=self.graph_id,
                                                   node_id=None, msg="No such graph in the database")
 
-        query = f"with '{inner_query}' as query " \
+        query = f"with '{cypher_escape(inner_query)}' as query " \
                 "CALL apoc.export.graphml.query(query, null, {stream: true, useTypes: true}) " \
                 "YIELD file, source, format, nodes, relationships, properties, time, " \
                 "rows, batchSize, batches, done, data " \
@@ -380,7 +390,7 @@ class Neo4jPropertyGraph(ABCPropertyGraph):
         Does the graph with this ID exist?
         :return:
         """
-        inner_query = f'match(n:GraphNode {{GraphID: "{self.graph_id}"}}) -[r]- (m) return n, r, m'
+        inner_query = f'match(n:GraphNode {{GraphID: "{cypher_escape(self.graph_id)}"}}) -[r]- (m) return n, r, m'
         # run  query to check the graph has anything in it
         with self.driver.session() as session:
             val = session.run(inner_query)
@@ -538,7 +548,7 @@ class Neo4jPropertyGraph(ABCPropertyGraph):
         all_props = {'Class': f'{label}', 'GraphID': f'{self.graph_id}', 'NodeID': f'{node_id}'}
         if props:
             all_props.update(props)
-        string_props = ", ".join((f"{k}: '{v}'" for k, v in all_props.items()))
+        string_props = ", ".join((f"{k}: '{cypher_escape(v)}'" for k, v in all_props.items()))
         labels = f"'GraphNode', '{label}'"
         query = f"CALL apoc.create.node([ {labels} ], {{ {string_props} }});"
         with self.driver.session() as session:
@@ -554,7 +564,7 @@ class Neo4jPropertyGraph(ABCPropertyGraph):
         all_props = {'Class': f'{rel}'}
         if props:
             all_props.update(props)
-        string_props = ", ".join((f"{k}: '{v}'" for k, v in all_props.items()))
+        string_props = ", ".join((f"{k}: '{cypher_escape(v)}'" for k, v in all_props.items()))
         query = f"MATCH (a:GraphNode {{GraphID: $graphId, NodeID: $nodeA}}) " \
                 f"MATCH (b:GraphNode {{GraphID: $graphId, NodeID: $nodeB}}) " \
                 f"CALL apoc.create.relationship(a, \"{rel}\", {{ {string_props} }}, b)" \
